@@ -2,7 +2,7 @@
 checks of C01/C02 (rb, bst), C07 (heap), C08 (map), C12/C13 (dlist, slist) and C15."""
 from .core import *
 
-LIB = ["heap.c", "bintree.c", "rbtree.c", "slist.c", "dlist.c", "map.c", "hash.c", "common.c"]
+LIB = ["heap.c", "bintree.c", "rbtree.c", "slist.c", "dlist.c", "map.c", "hash.c", "array.c", "vector.c", "memory.c", "common.c"]
 
 
 def big_phase(ctx, whats, tag="big"):
@@ -14,6 +14,9 @@ def big_phase(ctx, whats, tag="big"):
     exe = build(ctx, "drv_big", "drv_big.c", LIB, flags=["-std=gnu99", "-O1", "-D_GNU_SOURCE", "-fstack-protector-all"], libs=["-lm"])
     trace = ctx.work / f"{tag}.ndjson"
     rc, out = sh([str(exe), str(trace), str(ctx.seed)] + whats, timeout=900)
+    if rc == 124:
+        violation(ctx, f"{tag}: the library did not come back within the time limit on a large container ({' '.join(whats)})", {"signature": "big:hang"})
+        return
     if rc != 0:
         raise HarnessError(f"drv_big failed rc={rc}: {out[-1500:]}")
     with open(trace) as f:
